@@ -121,11 +121,11 @@ impl RealVectorStateSpace {
 
     /// Allows a user to configure the motion checking resolution.
     pub fn set_longest_valid_segment_fraction(&mut self, fraction: f64) {
+        // Non-positive fractions are ignored (the current value is kept): a zero resolution would make
+        // the step count of a motion check unbounded.
         if fraction > 0.0 && fraction <= 1.0 {
             self.longest_valid_segment_fraction = fraction;
-        } else if fraction <= 0.0 {
-            self.longest_valid_segment_fraction = 0.;
-        } else {
+        } else if fraction > 1.0 || fraction.is_nan() {
             self.longest_valid_segment_fraction = 1.;
         }
     }
